@@ -1,13 +1,272 @@
-(* C12 -- property theorems only (work in progress: first theorems). *)
-From Coq Require Import List Bool NArith.
-From SV Require Import C12.Ops C12.Spec C12.Concrete C12.ProofsBase C12.ProofsOps.
+(* C12 -- dict and set behave as insertion-ordered maps under every operation
+   history.  Property theorems only; each is closed by `exact <lemma>` (or a
+   two-line instantiation of lemmas); axioms are printed by the audit step of
+   bin/check (Print Assumptions per theorem).
+
+   Reading guide
+   -------------
+   * `state`, `step`, `run`, `insert`, `delete`, `lookup`, `items`, `first`, `len`
+     (Concrete.v) are the executable model of starlark/hashtable.go and of the
+     derived operations of value.go / library.go: chains of 8-slot buckets with
+     overflow buckets, insert scanning the whole chain and reusing the last empty
+     slot, `overloaded` / grow = rehash in list order, delete unlinking through
+     prevLink / moving tailLink / zeroing the slot; the insertion-order list as
+     next / prevLink / head / tailLink POINTERS in a store.
+   * `spec_step`, `spec_run` (Spec.v) are the plain ordered association list.
+   * `R h s l` (ProofsBase.v): the concrete state s is well formed (the invariant:
+     the next-chain from head enumerates exactly the occupied slots without
+     repetition, prevLinks / tailLink consistent, every entry sits in the chain of
+     its hash inside the chain's buckets, keys pairwise distinct, len = number of
+     entries, load bound) and its insertion-order list reads l.
+   * EVERY theorem is for an ARBITRARY hash function h : K -> N (so all collision
+     patterns, hash 0 included -- the model remaps it as the code does) and an
+     arbitrary key type with a decidable equality, arbitrary values, all states
+     reachable or not that satisfy the invariant, all operation histories.
+
+   What is abstracted (see Concrete.v header): the Go heap is a store indexed by
+   (chain, 8*bucket+slot) and a fresh table is a fresh store; uint32 len / hash
+   do not wrap; Equal is a total boolean equality consistent with Hash, Hash does
+   not fail; the frozen / itercount guards are not modelled (C04 / C06); the
+   second operand of a derived operation is the sequence its iterator yields.
+   The tie to /repo is the correspondence check of checks/c12.py. *)
+From Coq Require Import List Bool NArith Arith Lia.
+From SV Require Import C12.Ops C12.Spec C12.Concrete C12.ProofsBase C12.ProofsOps C12.ProofsSpec C12.ProofsStep.
 Import ListNotations.
 
-Theorem lookup_refines :
-  forall (K V : Type) (eqb : K -> K -> bool) (h : K -> N),
-    (forall a b, eqb a b = true <-> a = b) ->
-    forall (s : @state K V) l k, R h s l -> lookup eqb h s k = sp_lookup eqb l k.
-Proof. intros K V eqb h H. exact (lookup_ok eqb H h). Qed.
+Definition eq_ok {K} (eqb : K -> K -> bool) : Prop := forall a b, eqb a b = true <-> a = b.
 
-Example zero_state_represents_empty : R (fun k : N => k) (@zero_state N N) [].
-Proof. apply R_zero. Qed.
+(* ---------------------------------------------------------------- refinement *)
+
+(* The initial tables represent the empty list: the zero value (new(Dict),
+   table == nil) and NewDict(size) / NewSet(size) for every size (init's loop
+   terminates within its fuel). *)
+Theorem refinement_init :
+  forall (K V : Type) (h : K -> N),
+    R h (@zero_state K V) [] /\
+    forall size, exists s, @init K V size = Ok s /\ R h s [].
+Proof.
+  intros K V h. split; [apply R_zero|]. intros size. unfold init.
+  destruct (init_nb_ok size size 1) as (n & Hn & _); [lia|lia|]. rewrite Hn. cbn.
+  eexists. split; [reflexivity | apply R_empty_table].
+Qed.
+
+(* What R means for an observer: walking the order links (Keys / Items /
+   iteration) yields exactly l, len is its length, lookup is the list lookup,
+   first is its head -- and the model's loops do not run out of fuel. *)
+Theorem refinement_observe :
+  forall (K V : Type) (eqb : K -> K -> bool) (h : K -> N), eq_ok eqb ->
+  forall (s : @state K V) l, R h s l ->
+    items s = Ok l /\ len s = length l /\
+    (forall k, lookup eqb h s k = sp_lookup eqb l k) /\
+    first s = Ok (match l with [] => None | kv :: _ => Some (fst kv) end) /\
+    NoDup (keys l).
+Proof.
+  intros K V eqb h He s l HR. destruct (R_items h s l HR) as [H1 H2].
+  repeat split; auto.
+  - intros k. apply (lookup_ok eqb He h); auto.
+  - apply (first_ok h); auto.
+  - apply (R_keys_nodup h s l HR).
+Qed.
+
+(* One operation, any of the 13 (insert / lookup / delete / discard / clear /
+   pop-first / setdefault / update / dict union / set union / intersection /
+   difference / symmetric difference): from a well-formed state representing l
+   the model succeeds (no OutOfFuel, no Dangling pointer), returns exactly the
+   output of the association list, and ends in a well-formed state representing
+   the association list's result. *)
+Theorem refinement_step :
+  forall (K V : Type) (eqb : K -> K -> bool) (h : K -> N) (vnone : V), eq_ok eqb ->
+  forall (s : @state K V) l o, R h s l ->
+    exists s', step eqb h vnone s o = Ok (s', snd (spec_step eqb vnone l o)) /\
+               R h s' (fst (spec_step eqb vnone l o)).
+Proof. intros K V eqb h vnone He. exact (step_ok eqb He h vnone). Qed.
+
+(* All operation histories, of any length (induction over the operation list). *)
+Theorem refinement_history :
+  forall (K V : Type) (eqb : K -> K -> bool) (h : K -> N) (vnone : V), eq_ok eqb ->
+  forall os (s : @state K V) l, R h s l ->
+    exists s', run eqb h vnone s os = Ok (s', snd (spec_run eqb vnone l os)) /\
+               R h s' (fst (spec_run eqb vnone l os)).
+Proof. intros K V eqb h vnone He. exact (run_ok eqb He h vnone). Qed.
+
+(* The property in one statement: start from an empty dict / set, apply any
+   history; then every output, len, the iteration order (keys and values), and
+   every lookup equal those of the association list. *)
+Theorem insertion_ordered_map_under_every_history :
+  forall (K V : Type) (eqb : K -> K -> bool) (h : K -> N) (vnone : V), eq_ok eqb ->
+  forall os,
+    let final := fst (spec_run eqb vnone [] os) in
+    exists s : @state K V,
+      run eqb h vnone zero_state os = Ok (s, snd (spec_run eqb vnone [] os)) /\
+      items s = Ok final /\ len s = length final /\
+      (forall k, lookup eqb h s k = sp_lookup eqb final k).
+Proof.
+  intros K V eqb h vnone He os final.
+  destruct (run_ok eqb He h vnone os zero_state [] (R_zero h)) as (s & H1 & HR).
+  exists s. split; auto. destruct (R_items h s _ HR) as [H2 H3]. repeat split; auto.
+  intros k. apply (lookup_ok eqb He h); auto.
+Qed.
+
+(* the two table operations with a proof of their own (used by everything else) *)
+Theorem insert_refines :
+  forall (K V : Type) (eqb : K -> K -> bool) (h : K -> N), eq_ok eqb ->
+  forall (s : @state K V) l k v, R h s l ->
+    exists s', insert eqb h insert_fuel s k v = Ok s' /\ R h s' (sp_insert eqb l k v).
+Proof. intros K V eqb h He s l k v. exact (insert_ok eqb He h 0 s l k v). Qed.
+
+Theorem delete_refines :
+  forall (K V : Type) (eqb : K -> K -> bool) (h : K -> N), eq_ok eqb ->
+  forall (s : @state K V) l k, R h s l ->
+    exists s', delete eqb h s k = Ok (s', sp_lookup eqb l k) /\ R h s' (sp_delete eqb l k) /\ nb s' = nb s.
+Proof. intros K V eqb h He. exact (delete_ok eqb He h). Qed.
+
+(* ------------------------------------------- the property's words, as corollaries *)
+
+(* new keys go last; updating a key keeps its place (and everybody else's) *)
+Theorem new_keys_go_last_updates_keep_place :
+  forall (K V : Type) (eqb : K -> K -> bool) (h : K -> N) (vnone : V), eq_ok eqb ->
+  forall (s : @state K V) l k v, R h s l ->
+    exists s', step eqb h vnone s (OInsert k v) = Ok (s', ONone) /\
+      (sp_lookup eqb l k = None -> items s' = Ok (l ++ [(k, v)])) /\
+      (sp_lookup eqb l k <> None ->
+         items s' = Ok (sp_replace eqb l k v) /\ keys (sp_replace eqb l k v) = keys l) /\
+      lookup eqb h s' k = Some v.
+Proof.
+  intros K V eqb h vnone He s l k v HR.
+  destruct (step_ok eqb He h vnone s l (OInsert k v) HR) as (s' & H1 & R1). cbn in H1, R1.
+  exists s'. split; auto. destruct (R_items h s' _ R1) as [H2 _].
+  assert (Hl : lookup eqb h s' k = Some v).
+  { rewrite (lookup_ok eqb He h s' _ k R1). apply (sp_lookup_insert_same eqb He). }
+  repeat split; auto.
+  - intros E. unfold sp_insert in H2. rewrite E in H2. auto.
+  - unfold sp_insert in H2. destruct (sp_lookup eqb l k); [auto|contradiction].
+  - apply keys_sp_replace.
+Qed.
+
+(* deleting and re-inserting moves the key to the end *)
+Theorem delete_reinsert_moves_to_end :
+  forall (K V : Type) (eqb : K -> K -> bool) (h : K -> N) (vnone : V), eq_ok eqb ->
+  forall (s : @state K V) l k v, R h s l ->
+    exists s' w, run eqb h vnone s [ODelete k; OInsert k v] = Ok (s', [OVal w; ONone]) /\
+                 w = sp_lookup eqb l k /\
+                 items s' = Ok (sp_delete eqb l k ++ [(k, v)]) /\
+                 ~ In k (keys (sp_delete eqb l k)).
+Proof.
+  intros K V eqb h vnone He s l k v HR.
+  destruct (run_ok eqb He h vnone [ODelete k; OInsert k v] s l HR) as (s' & H1 & R1).
+  cbn in H1, R1. exists s', (sp_lookup eqb l k). split; auto. split; auto.
+  assert (ND : NoDup (keys l)) by (apply (R_keys_nodup h s l HR)).
+  assert (Hn : ~ In k (keys (sp_delete eqb l k))).
+  { rewrite (sp_delete_filter eqb He) by auto. intros H. unfold keys in H. apply in_map_iff in H.
+    destruct H as (kv & <- & H). apply filter_In in H. destruct H as [_ H].
+    rewrite (eqb_refl eqb He) in H. discriminate. }
+  split; auto. destruct (R_items h s' _ R1) as [H2 _]. rewrite H2. f_equal.
+  unfold sp_insert. rewrite (sp_lookup_notin eqb He); auto.
+Qed.
+
+(* len = number of distinct live keys; lookup finds exactly the live pairs;
+   iteration order = the association list's order *)
+Theorem len_lookup_iteration :
+  forall (K V : Type) (eqb : K -> K -> bool) (h : K -> N), eq_ok eqb ->
+  forall (s : @state K V) l, R h s l ->
+    len s = length (keys l) /\ NoDup (keys l) /\
+    (forall k v, lookup eqb h s k = Some v <-> In (k, v) l) /\
+    items s = Ok l.
+Proof.
+  intros K V eqb h He s l HR. destruct (R_items h s l HR) as [H1 H2].
+  assert (ND : NoDup (keys l)) by (apply (R_keys_nodup h s l HR)).
+  repeat split; auto.
+  - unfold keys. rewrite map_length. auto.
+  - rewrite (lookup_ok eqb He h s l k HR). apply (sp_lookup_in eqb He); auto.
+  - rewrite (lookup_ok eqb He h s l k HR). apply (sp_lookup_in eqb He); auto.
+Qed.
+
+(* derived collections list left-operand elements first: the keys of the result,
+   in iteration order, are -- union / update: the left keys, then the new keys of
+   the right operand in first-occurrence order; intersection and difference: the
+   left keys that are / are not in the right operand, in left order; symmetric
+   difference: the left keys not in the right operand, then the right-only keys
+   in first-occurrence order. *)
+Theorem derived_collections_left_operand_first :
+  forall (K V : Type) (eqb : K -> K -> bool) (h : K -> N) (vnone : V), eq_ok eqb ->
+  forall (s : @state K V) l, R h s l ->
+    let newkeys ks := dedup eqb (filter (fun k => negb (memb eqb k (keys l))) ks) in
+    (forall xs, exists s', step eqb h vnone s (ODictUnion xs) = Ok (s', ONone) /\ R h s' (sp_update eqb l xs) /\
+                           keys (sp_update eqb l xs) = keys l ++ newkeys (keys xs)) /\
+    (forall xs, exists s', step eqb h vnone s (OUpdate xs) = Ok (s', ONone) /\ R h s' (sp_update eqb l xs) /\
+                           keys (sp_update eqb l xs) = keys l ++ newkeys (keys xs)) /\
+    (forall ks, exists s' l', step eqb h vnone s (OSetUnion ks) = Ok (s', ONone) /\ R h s' l' /\
+                              keys l' = keys l ++ newkeys ks) /\
+    (forall ks, exists s' l', step eqb h vnone s (OSetInter ks) = Ok (s', ONone) /\ R h s' l' /\
+                              keys l' = filter (fun k => memb eqb k ks) (keys l)) /\
+    (forall ks, exists s' l', step eqb h vnone s (OSetDiff ks) = Ok (s', ONone) /\ R h s' l' /\
+                              keys l' = filter (fun k => negb (memb eqb k ks)) (keys l)) /\
+    (forall ks, exists s' l', step eqb h vnone s (OSetSymDiff ks) = Ok (s', ONone) /\ R h s' l' /\
+                              keys l' = filter (fun k => negb (memb eqb k ks)) (keys l) ++ newkeys ks).
+Proof.
+  intros K V eqb h vnone He s l HR newkeys.
+  assert (Hf : forall (p : K -> bool) (a : list (K * V)),
+             keys (filter (fun kv => p (fst kv)) (as_set vnone a)) = filter p (keys a)).
+  { intros p a. unfold keys, as_set. induction a as [|[x w] r IH]; cbn; auto. destruct (p x); cbn; rewrite IH; auto. }
+  repeat split.
+  - intros xs. destruct (step_ok eqb He h vnone s l (ODictUnion xs) HR) as (s' & H1 & R1).
+    exists s'. repeat split; auto. apply (keys_sp_update eqb He).
+  - intros xs. destruct (step_ok eqb He h vnone s l (OUpdate xs) HR) as (s' & H1 & R1).
+    exists s'. repeat split; auto. apply (keys_sp_update eqb He).
+  - intros ks. destruct (step_ok eqb He h vnone s l (OSetUnion ks) HR) as (s' & H1 & R1).
+    exists s', (sp_union eqb vnone l ks). repeat split; auto.
+    unfold sp_union. rewrite keys_app, keys_as_set, keys_elems. auto.
+  - intros ks. destruct (step_ok eqb He h vnone s l (OSetInter ks) HR) as (s' & H1 & R1).
+    exists s', (sp_inter eqb vnone l ks). repeat split; auto. apply (Hf (fun k => memb eqb k ks)).
+  - intros ks. destruct (step_ok eqb He h vnone s l (OSetDiff ks) HR) as (s' & H1 & R1).
+    exists s', (sp_diff eqb vnone l ks). repeat split; auto. apply (Hf (fun k => negb (memb eqb k ks))).
+  - intros ks. destruct (step_ok eqb He h vnone s l (OSetSymDiff ks) HR) as (s' & H1 & R1).
+    exists s', (sp_symdiff eqb vnone l ks). repeat split; auto.
+    unfold sp_symdiff, sp_diff. rewrite keys_app, keys_elems. f_equal.
+    apply (Hf (fun k => negb (memb eqb k ks))).
+Qed.
+
+(* pop / popitem / setdefault / clear against the association list (instances of
+   refinement_step, spelled out) *)
+Theorem pop_popitem_setdefault_clear :
+  forall (K V : Type) (eqb : K -> K -> bool) (h : K -> N) (vnone : V), eq_ok eqb ->
+  forall (s : @state K V) l, R h s l ->
+    (forall k, exists s', step eqb h vnone s (ODelete k) = Ok (s', OVal (sp_lookup eqb l k)) /\
+                          R h s' (sp_delete eqb l k)) /\
+    (exists s', step eqb h vnone s OPopFirst =
+                  Ok (s', OKV (match l with [] => None | kv :: _ => Some kv end)) /\ R h s' (tl l)) /\
+    (forall k v, exists s', step eqb h vnone s (OSetDefault k v) =
+                              Ok (s', OVal (Some (match sp_lookup eqb l k with Some w => w | None => v end))) /\
+                            R h s' (match sp_lookup eqb l k with Some _ => l | None => l ++ [(k, v)] end)) /\
+    (exists s', step eqb h vnone s OClear = Ok (s', ONone) /\ R h s' [] /\ nb s' = nb s).
+Proof.
+  intros K V eqb h vnone He s l HR. repeat split.
+  - intros k. apply (step_ok eqb He h vnone s l (ODelete k) HR).
+  - destruct (step_ok eqb He h vnone s l OPopFirst HR) as (s' & H1 & R1). exists s'.
+    destruct l as [|kv r]; cbn in *; auto.
+  - intros k v. destruct (step_ok eqb He h vnone s l (OSetDefault k v) HR) as (s' & H1 & R1). exists s'.
+    cbn in *. destruct (sp_lookup eqb l k); auto.
+  - exists (clear s). repeat split. apply (R_empty_table h).
+Qed.
+
+(* ---------------------------------------------------------------- non-vacuity *)
+
+(* The hypothesis R is satisfiable by a non-trivial state: 12 keys that all hash
+   to 0 (remapped to 1), so one chain with an overflow bucket after a grow; then
+   a delete in the full chain and a re-insert that reuses the vacated slot. *)
+Definition ex_ops : list (op N N) :=
+  map (fun i => OInsert (N.of_nat i) (N.of_nat (100 + i))) (seq 0 12)
+  ++ [ODelete 3%N; OInsert 20%N 7%N; OInsert 3%N 8%N; OSetDefault 5%N 9%N; OPopFirst].
+
+Example premises_hold_on_a_grown_overflowing_table :
+  exists s, run N.eqb (fun _ => 0%N) 0%N zero_state ex_ops = Ok (s, snd (spec_run N.eqb 0%N [] ex_ops)) /\
+            R (fun _ : N => 0%N) s (fst (spec_run N.eqb 0%N [] ex_ops)) /\
+            nb s = 2 /\ max_chain s = 2 /\
+            map fst (fst (spec_run N.eqb 0%N [] ex_ops)) = [1; 2; 4; 5; 6; 7; 8; 9; 10; 11; 20; 3]%N.
+Proof.
+  destruct (run_ok N.eqb N.eqb_eq (fun _ => 0%N) 0%N ex_ops zero_state [] (R_zero _)) as (s & H1 & R1).
+  exists s. split; auto. split; auto.
+  assert (E : match run N.eqb (fun _ => 0%N) 0%N zero_state ex_ops with
+              | Ok (s, _) => (nb s, max_chain s) | _ => (0, 0) end = (2, 2)) by (vm_compute; reflexivity).
+  rewrite H1 in E. injection E as E1 E2. repeat split; auto.
+Qed.
